@@ -115,7 +115,7 @@ func c12ReadLoopsLeaveOnError(r *core.Report, fns []*core.Func) {
 				if back(nd) {
 					path = []*core.GNode{nd}
 				} else {
-					path = g.PathAvoiding(nd, back, nilEdge)
+					path = pathAvoidingWithFlags(g, info, nd, back, nilEdge)
 				}
 				r.Check(path == nil, rule, key, pos(r, c), "the loop goes round again only after the read's error was found to be nil",
 					"the loop can go round again although the read reported an error (e.g. io.EOF tolerated): on a truncated file the read keeps returning (0, io.EOF), nothing advances and the loop never ends", g.PathStrings(path)...)
@@ -123,4 +123,106 @@ func c12ReadLoopsLeaveOnError(r *core.Report, fns []*core.Func) {
 		}
 	}
 	r.Extra["C12_loop_reads"] = n
+}
+
+// pathAvoidingWithFlags is PathAvoiding with one refinement: boolean locals that the path itself sets to a constant are
+// tracked, and an edge that tests such a local against the value it was just given is not taken (`atEnd = true` followed
+// by the loop condition `!atEnd`: the way back into the loop is infeasible).
+func pathAvoidingWithFlags(g *core.Graph, info *types.Info, from *core.GNode, target func(*core.GNode) bool, avoid func(*core.GNode) bool) []*core.GNode {
+	type state struct {
+		n     *core.GNode
+		flags string // sorted "name=0/1;" of known flags
+	}
+	type item struct {
+		st   state
+		prev *item
+		vals map[types.Object]bool
+	}
+	enc := func(m map[types.Object]bool) string {
+		var parts []string
+		for o, v := range m {
+			parts = append(parts, fmt.Sprintf("%p=%v", o, v))
+		}
+		// order-independent encoding
+		for i := range parts {
+			for j := i + 1; j < len(parts); j++ {
+				if parts[j] < parts[i] {
+					parts[i], parts[j] = parts[j], parts[i]
+				}
+			}
+		}
+		return strings.Join(parts, ";")
+	}
+	start := &item{st: state{from, ""}, vals: map[types.Object]bool{}}
+	seen := map[state]bool{start.st: true}
+	queue := []*item{start}
+	for len(queue) > 0 {
+		it := queue[0]
+		queue = queue[1:]
+		for _, s := range it.st.n.Succs {
+			if avoid != nil && avoid(s) {
+				continue
+			}
+			vals := it.vals
+			// an edge contradicting a known flag is infeasible
+			if s.Kind == core.KEdge && s.Ast != nil && s.Tag == nil {
+				feasible := true
+				for _, fc := range s.Facts() {
+					if id, ok := core.Unparen(fc.Expr).(*ast.Ident); ok {
+						if v, known := vals[info.Uses[id]]; known && v != fc.Truth {
+							feasible = false
+						}
+					}
+				}
+				if !feasible {
+					continue
+				}
+			}
+			// assignments of boolean constants to locals
+			if s.Kind == core.KStmt {
+				if as, ok := s.Ast.(*ast.AssignStmt); ok {
+					for i, l := range as.Lhs {
+						o := core.ObjOf(info, l)
+						if o == nil {
+							continue
+						}
+						if _, tracked := vals[o]; !tracked {
+							if b, isB := o.Type().Underlying().(*types.Basic); !isB || b.Kind() != types.Bool {
+								continue
+							}
+						}
+						nv := map[types.Object]bool{}
+						for k, v := range vals {
+							nv[k] = v
+						}
+						if len(as.Lhs) == len(as.Rhs) {
+							if b, isC := boolConst(info, as.Rhs[i]); isC {
+								nv[o] = b
+							} else {
+								delete(nv, o)
+							}
+						} else {
+							delete(nv, o)
+						}
+						vals = nv
+					}
+				}
+			}
+			st := state{s, enc(vals)}
+			if seen[st] {
+				continue
+			}
+			seen[st] = true
+			ni := &item{st: st, prev: it, vals: vals}
+			if target(s) {
+				var path []*core.GNode
+				for x := ni; x != nil; x = x.prev {
+					path = append([]*core.GNode{x.st.n}, path...)
+				}
+				return path
+			}
+			queue = append(queue, ni)
+		}
+	}
+	return nil
 }
